@@ -68,6 +68,13 @@ def main():
     for p in props:
         code, rep, _ = analyse(p, "/repo", "quick", quiet=True, overlay={})
         files = sorted(rep.repo.consulted)
+        # package-wide sweeps read every module: rename them all
+        for dp, dn, fn in os.walk("/repo/synkit"):
+            for f in fn:
+                if f.endswith(".py"):
+                    rel = os.path.relpath(os.path.join(dp, f), "/repo")
+                    if rel not in files:
+                        files.append(rel)
         overlay = {}
         for rel in files:
             try:
